@@ -51,6 +51,7 @@ type pattr struct {
 	Expr string
 	ty   cty.Type // the type the spec wants (for perturbations)
 	req  bool
+	jraw string // non-empty: the JSON spelling of the expression in a JSON body (exprfail.go)
 }
 
 type pblock struct {
